@@ -75,7 +75,7 @@ impl<'a> Gen<'a> {
         _ => format!("{}", self.rng.range(-3, 40)),
       };
     }
-    match self.rng.below(14) {
+    match self.rng.below(15) {
       0 => format!("({} + {})", self.num(d - 1, vars), self.num(d - 1, vars)),
       1 => format!("({} - {})", self.num(d - 1, vars), self.num(d - 1, vars)),
       2 => format!("({} * {})", self.num(d - 1, vars), self.num(d - 1, vars)),
@@ -94,6 +94,24 @@ impl<'a> Gen<'a> {
         format!("(function({}, {}) {})({}: {}, {}: {})", x, y, self.num(d - 1, &inner), y, self.num(d - 1, vars), x, self.num(d - 1, vars))
       }
       9 => format!("({} / {})", self.num(d - 1, vars), self.rng.pick(&["2", "4", "5", "8", "10", "0.5", "0"])),
+      13 => {
+        // wrong arity: too few / too many positional arguments, a missing / an extra named one
+        let x = self.var("p");
+        let y = self.var("q");
+        let inner = vars.with(&x, K::Num).with(&y, K::Num);
+        let body = self.num(d - 1, &inner);
+        let a = self.num(d - 1, vars);
+        let b = self.num(d - 1, vars);
+        let call = match self.rng.below(5) {
+          0 => format!("({})", a),
+          1 => "()".to_string(),
+          2 => format!("({}, {}, {})", a, b, a),
+          3 => format!("({}: {})", x, a),
+          _ => format!("({}: {}, {}: {}, zz: 1)", y, a, x, b),
+        };
+        // followed by a use of the surrounding scope, so that a leaked context shows
+        format!("[(function({}, {}) {}){}, {}, n1][{}]", x, y, body, call, self.num(d - 1, vars), self.rng.range(1, 3))
+      }
       12 => {
         // typed parameters: the argument is coerced (null, singleton wrap / unwrap)
         let x = self.var("p");
@@ -104,7 +122,12 @@ impl<'a> Gen<'a> {
           1 => format!("[{}]", self.num(d - 1, vars)),
           _ => self.any(d - 1, vars),
         };
-        format!("(function({}: {}) {})({})", x, t, body, arg)
+        if self.rng.chance(1, 2) {
+          format!("(function({}: {}) {})({})", x, t, body, arg)
+        } else {
+          // the same through a named invocation
+          format!("(function({}: {}) {})({}: {})", x, t, body, x, arg)
+        }
       }
       10 => format!("{{a: {}, b: a + 1}}.b", self.num(d - 1, vars)),
       11 => format!("{}[{}]", self.list(d - 1, vars), self.num(d - 1, vars)),
@@ -282,7 +305,9 @@ impl<'a> Gen<'a> {
         // ill-typed on purpose: the error paths
         let a = self.any(d.saturating_sub(1), vars);
         let b = self.any(d.saturating_sub(1), vars);
-        let op = *self.rng.pick(&["+", "-", "*", "/", "<", "and", "or", "="]);
+        // no `/` here: a non-terminating quotient cannot be computed by the exact-arithmetic
+        // model and its "unsupported" marker could be absorbed by an enclosing comparison
+        let op = *self.rng.pick(&["+", "-", "*", "<", "and", "or", "="]);
         format!("({} {} {})", a, op, b)
       }
     }
@@ -435,6 +460,12 @@ pub fn corpus() -> Vec<&'static str> {
     "n1 + nz",
     "{n1: 100, r: n1}.r",
     "(function(n1) n1 + n2)(1)",
+    "(function(x: number) x)(x: \"a\")",
+    "(function(x: number) x + 1)(x: [1])",
+    "(function(l: list<number>) l)(l: 5)",
+    "(function(a, b) a + b)(1)",
+    "(function(a, b) a + b)(a: 1)",
+    "[(function(n1, b) n1 + b)(1), n1]",
     "for i in 9223372036854775807..9223372036854775807 return 1",
     "for i in -9223372036854775808..-9223372036854775808 return 1",
     "for i in 9223372036854775806..9223372036854775807 return 1",
